@@ -4,7 +4,8 @@
    of the result is the operator applied to sample b. "Up to floating-point rounding" enters only in
    the tie (Go against Go, harness stream C16_batch_vs_rows). *)
 From Coq Require Import List Arith.
-From V Require Import Tensor ConvLoop MatMul BroadcastSpec BatchProofs Recurrent RecurrentProofs.
+From Coq Require Import String.
+From V Require Import Tensor ConvLoop MatMul BroadcastSpec BatchProofs Recurrent RecurrentProofs Run RunNatural.
 Import ListNotations.
 
 (* Gemm / MatMul against a weight matrix (and the per-gate products of RNN/GRU/LSTM): row i of X . W
@@ -25,7 +26,7 @@ Proof. exact (conv2d_spec_row zero add mul N C H W M KH KW p0 p1 p2 p3 s0 s1 x k
 
 (* elementwise operators against an operand broadcast over the batch axis *)
 Theorem C16_elementwise_rows {A} (zero : A) (g : A -> A -> A) (x w : tensor A) s b i :
-  tshape x = s -> bshape s (tshape w) = Some s -> length (tshape w) < length s -> valid s (b :: i) ->
+  tshape x = s -> bshape s (tshape w) = Some s -> List.length (tshape w) < List.length s -> valid s (b :: i) ->
   g (get zero x (b :: i)) (get zero (bcast_to zero s w) (b :: i))
   = g (get zero (row zero b x) (0 :: i)) (get zero (bcast_to zero (1 :: tl s) w) (0 :: i)).
 Proof. exact (bcast_elementwise_row zero g x w s b i). Qed.
@@ -34,7 +35,7 @@ Proof. exact (bcast_elementwise_row zero g x w s b i). Qed.
    running the selected rows gives the selected rows of every output: Y at every time step, Y_h, Y_c --
    so no sample's output depends on which other samples share the batch, on their order, or on the batch size *)
 Theorem C16_recurrent_rows {A} (o : sops A) acts lbr coupled Wg Rg Wb Rb P k n (is : list nat) xs h0 c0 :
-  Forall (fun xt : list (list A) => length xt = n) xs -> length h0 = n -> (k = KLSTM -> length c0 = n) ->
+  Forall (fun xt : list (list A) => List.length xt = n) xs -> List.length h0 = n -> (k = KLSTM -> List.length c0 = n) ->
   Forall (fun i => i < n) is ->
   run_rec o k acts lbr coupled Wg Rg Wb Rb P (map (pick [] is) xs) (pick [] is h0) (pick [] is c0) =
   (map (pick [] is) (fst (fst (run_rec o k acts lbr coupled Wg Rg Wb Rb P xs h0 c0))),
@@ -42,6 +43,22 @@ Theorem C16_recurrent_rows {A} (o : sops A) acts lbr coupled Wg Rg Wb Rb P k n (
    pick [] is (snd (run_rec o k acts lbr coupled Wg Rg Wb Rb P xs h0 c0))).
 Proof. exact (run_rec_pick o acts lbr coupled Wg Rg Wb Rb P k n is xs h0 c0). Qed.
 Print Assumptions C16_recurrent_rows.
+
+(* COMPOSITION: for ANY graph (any DAG, fan-out, multi-output nodes, failing nodes) over ANY operator
+   semantics: if every operator commutes with a transformation phi of tensors -- "keep these batch
+   rows", acting as the identity on weights -- and the weights are fixed by phi, then the whole Run
+   commutes with phi: the outputs for the transformed inputs are the transformed outputs (same error
+   or panic otherwise). With the per-operator lemmas above as the premise, a model built from
+   per-sample operators is batch-equivariant. *)
+Theorem C16_run_commutes (T attrs : Type) (shape_of : T -> list nat)
+    (op_sem : string -> attrs -> list (option T) -> xres (list (option T))) (supported : string -> bool) (phi : T -> T) :
+  (forall o a ins, op_sem o a (map (option_map phi) ins) = xmap (map (option_map phi)) (op_sem o a ins)) ->
+  forall (g : graph T attrs) feed,
+  params_fixed T attrs phi g ->
+  validate_shapes T attrs shape_of g (mapf T phi feed) = validate_shapes T attrs shape_of g feed ->
+  run_model T attrs shape_of op_sem supported g (mapf T phi feed) = xmap (mapf T phi) (run_model T attrs shape_of op_sem supported g feed).
+Proof. exact (run_model_natural T attrs shape_of op_sem supported phi). Qed.
+Print Assumptions C16_run_commutes.
 
 (* non-vacuity: a GRU-free check of the selection [1;0;1] on a two-row RNN batch over nat *)
 Example C16_nonvacuous :
